@@ -13,11 +13,11 @@ Extraction "model.ml"
   FilterCase.filter_case FilterCase.monitor_C09 FilterCase.monitor_C18_all
   ReasmRs.run_log ReasmRs.monitor_C16
   Model.step Model.init Model.wire_type Monitors.monitor_step Monitors.mall0
-  Wire.decode Wire.dec_ok_basic WireMon.monitor_C18 WireMon.monitor_C03dec WireMon.rfc_verdict
-  EncodeMsg.encode_msg EncodeMsg.monitor_C14 EncodeMsg.msg_type_of
+  Wire.decode Wire.dec_ok_basic WireMon.monitor_C18 WireMon.monitor_C18val WireMon.monitor_C03dec WireMon.rfc_verdict
+  EncodeMsg.encode_msg EncodeMsg.monitor_C14 EncodeMsg.monitor_C14_tail EncodeMsg.msg_type_of
   ArcHeap.heap0 ArcHeapProofs.outs_s ArcHeapProofs.outs_p ArcHeapProofs.wfb
   AttrValue.av_case_dec AttrValue.av_case_enc AttrValue.av_wf
   WireFull.dec_ok_full WireFull.typed_attrs
-  Message.encode_typed Message.decode_typed Message.monitor_C01 Message.ctor_of Message.quoted_roundtrips Message.ctor_class Keys.st_key Keys.lt_key
+  Message.encode_typed Message.decode_typed Message.monitor_C01 Message.ctor_of Message.quoted_roundtrips Message.ctor_class Message.dangling_backslash Keys.st_key Keys.lt_key
   Ignored.monitor_C02ign Ignored.diff_bits
   AbsGlue.abs_packet AbsGlue.nonce_features AbsGlue.nonce_str.
